@@ -326,6 +326,11 @@ func (cmd commandEpsv) Execute(conn *Conn, param string) {
 		return
 	}
 
+	if conn.dataConn != nil {
+		conn.dataConn.Close()
+		conn.dataConn = nil
+	}
+
 	socket, err := newPassiveSocket(addr[:lastIdx], conn.PassivePort(), conn.sessionid, conn.tlsConfig)
 	if err != nil {
 		log.Debug(err.Error())
@@ -546,6 +551,11 @@ func (cmd commandPasv) RequireAuth() bool {
 
 func (cmd commandPasv) Execute(conn *Conn, param string) {
 	listenIP := conn.passiveListenIP()
+
+	if conn.dataConn != nil {
+		conn.dataConn.Close()
+		conn.dataConn = nil
+	}
 
 	socket, err := newPassiveSocket(listenIP, conn.PassivePort(), conn.sessionid, conn.tlsConfig)
 	if err != nil {
